@@ -28,7 +28,9 @@ from pathlib import Path
 
 import common
 
-RULE = ("3 programs x option variants x every stage index of the model's stage list (crash point) + the "
+RULE = ("output names: default + no suffix / other suffix / several dots / upper-case suffix / blanks, with look-alike "
+        "neighbour files, absolute / relative / sub-directory paths; temp dir on another filesystem; "
+        "3 programs x option variants x every stage index of the model's stage list (crash point) + the "
         "successful run, x pre-existing directory contents (empty / other files / existing output / existing "
         "output with backups #name.1#, gaps, look-alike names; random contents in the thorough tier); "
         "distinct = (program, variant, crash index, directory state); trivial = none")
@@ -378,6 +380,41 @@ def prestates(out, rng, extra_random):
     return states
 
 
+def output_names(default):
+    """output file names a user may ask for: the programs must write exactly there whatever the name looks
+    like (no suffix, another suffix, several dots, upper-case suffix, blanks, a trailing dot part)"""
+    ext = os.path.splitext(default)[1]            # .itp / .gro / .json
+    return ["coords", "melt.300K", "run_1.5nm", "start" + ext.upper(), "my out" + ext, "a.b.c" + ext,
+            default + ".bak", "v2." + default]
+
+
+def name_class(out, default):
+    if out == default:
+        return "default"
+    ext = os.path.splitext(default)[1]
+    if "." not in out:
+        return "no-suffix"
+    if out.endswith(ext):
+        return "usual-suffix(dots/blanks)"
+    if out.lower().endswith(ext):
+        return "upper-case-suffix"
+    return "other-suffix"
+
+
+def neighbours(out, default):
+    """files with similar names that a wrongly derived output path would hit"""
+    ext = os.path.splitext(default)[1]
+    stem = os.path.splitext(out)[0]
+    names = [stem + ext, out + ext, stem, stem + ext.upper(), out.lower(), "#%s.1#" % (stem + ext)]
+    return {n: "NEIGHBOUR %d\n" % i for i, n in enumerate(names) if n and n != out}
+
+
+def name_states(out, default):
+    near = neighbours(out, default)
+    return [("fresh+neighbours", dict(near)), ("exists+neighbours", dict(near, **{out: OLD})),
+            ("exists+bk1+neighbours", dict(near, **{out: OLD, "#%s.1#" % out: "B1\n"}))]
+
+
 def reset_writer(tmpdir):
     """a fresh process as far as the deferred writer is concerned"""
     from vermouth.file_writer import DeferredFileWriter
@@ -435,7 +472,11 @@ def execute(prog, call, indir, outdir, out, table, crash_label=None, crash_write
     # not part of the stage list (label outside the model) but is still seen and can be interrupted
     session.install_builtin_open(Path(outdir) / out, "open" if prog == "gen_seq" else "builtin-open(output)")
     try:
-        if relative:
+        if relative == "subdir":
+            # the output in a sub-directory of the working directory, given as a relative path
+            os.chdir(os.path.dirname(outdir))
+            call(indir, Path(os.path.basename(outdir)) / out)
+        elif relative:
             os.chdir(outdir)
             call(indir, Path(out))
         else:
@@ -583,8 +624,9 @@ def before_writing(plan, crash):
     return crash <= kinds.index("openDirect")
 
 
-def run_one(ctx, plan, table, indir, scratch, state_name, files, point, relative=False, xdev=False):
+def run_one(ctx, plan, table, indir, scratch, state_name, files, point, relative=False, xdev=False, out_name=None):
     crash, label, wnum = point
+    out = out_name or plan["out"]
     outdir = tempfile.mkdtemp(dir=scratch)
     tmpdir = tempfile.mkdtemp(dir=scratch)
     if xdev:
@@ -598,7 +640,7 @@ def run_one(ctx, plan, table, indir, scratch, state_name, files, point, relative
             ctx.tally(cross_device="simulated EXDEV")
     populate(outdir, files)
     before = listing(outdir)
-    session, error = execute(plan["prog"], plan["call"], indir, outdir, plan["out"], table,
+    session, error = execute(plan["prog"], plan["call"], indir, outdir, out, table,
                              crash_label=label, crash_write=wnum, relative=relative, tmpdir=tmpdir, xdev=xdev)
     after = listing(outdir)
     tmps = []
@@ -611,16 +653,17 @@ def run_one(ctx, plan, table, indir, scratch, state_name, files, point, relative
     if xdev:
         shutil.rmtree(tmpdir, ignore_errors=True)
     replay = dict(program=plan["prog"], variant=plan["vname"], crash=crash, crash_label=label, crash_write=wnum,
-                  state=state_name, files=files, relative=relative, xdev=xdev)
+                  state=state_name, files=files, relative=relative, xdev=xdev, out=out)
     impl = dict(fs=canon_fs(after), tmp=sorted(tmps), queue=queue,
                 crashed=session.crashed, error=error)
     request = dict(op="runs", fs=before,
-                   runs=[dict(prog=plan["prog"], flags=plan["flags"], out=plan["out"], chunks=plan["chunks"],
+                   runs=[dict(prog=plan["prog"], flags=plan["flags"], out=out, chunks=plan["chunks"],
                               crash=crash)])
     if crash is not None and before_writing(plan, crash):
         spec = dict(op="spec_unchanged", before=before, after=after)
     elif crash is None:
-        spec = dict(op="spec_success", before=before, after=after, out=plan["out"], content=plan["content"])
+        # the oracle looks at exactly the path that was requested
+        spec = dict(op="spec_success", before=before, after=after, out=out, content=plan["content"])
     else:
         spec = dict(op="spec_unchanged", before=before, after=before)   # not judged (placeholder)
     return dict(replay=replay, impl=impl, before=before, after=after, reqs=[request, spec], crash=crash,
@@ -640,17 +683,19 @@ def judge(ctx, case, answers):
         judged = "no_partial"
         if not spec["holds"]:
             ctx.oracle_fail("output-touched-by-failed-run",
-                            "%s (%s) failed at stage %s (%s) before writing, yet the output directory changed: "
-                            "before %s after %s" % (plan["prog"], plan["vname"], crash,
-                                                    plan["rows"][crash][1], case["before"], case["after"]),
+                            "%s (%s, output %r) failed at stage %s (%s) before writing, yet the output directory "
+                            "changed: before %s after %s" % (plan["prog"], plan["vname"], replay.get("out"), crash,
+                                                             plan["rows"][crash][1], case["before"], case["after"]),
                             replay)
     elif crash is None and plan["prog"] in ("gen_params", "gen_coords"):
         judged = "success"
         if not spec["holds"]:
             ctx.oracle_fail("success-without-complete-file-or-backup",
-                            "%s (%s) succeeded but the directory is not {complete output, previous file under the "
-                            "first free #name.k# (k=%s), everything else untouched}: before %s after %s"
-                            % (plan["prog"], plan["vname"], spec.get("backup"), case["before"], case["after"]),
+                            "%s (%s) asked to write %r succeeded but the directory is not {complete output at that "
+                            "path, previous file under the first free #name.k# (k=%s), everything else untouched}: "
+                            "before %s after %s" % (plan["prog"], plan["vname"], replay.get("out"), spec.get("backup"),
+                                                    [(p, c[:30]) for p, c in case["before"]],
+                                                    [(p, c[:30]) for p, c in case["after"]]),
                             replay)
     elif crash is None:
         # gen_seq success: the statement makes no backup promise; the complete file is in place (tie only)
@@ -660,7 +705,9 @@ def judge(ctx, case, answers):
     informative = case["state"] in ("exists+bk1", "exists+gap") and not replay["relative"] and \
         (crash is None or plan["rows"][crash][0] in ("writeDeferred", "flush", "openDirect")) and \
         plan["vname"] in ("seq", "plain")
-    ctx.case((plan["prog"], plan["vname"], crash, case["state"], replay["relative"], replay.get("xdev", False)),
+    ctx.tally(output_name=name_class(replay.get("out", plan["out"]), plan["out"]))
+    ctx.case((plan["prog"], plan["vname"], crash, case["state"], replay["relative"], replay.get("xdev", False),
+              replay.get("out")),
              sample=None if not informative or ctx.rng.random() < 0.6 else dict(input=dict(program=plan["prog"], variant=plan["vname"], crash=crash,
                                     stage=plan["rows"][crash][1] if crash is not None else None,
                                     state=case["state"]),
@@ -738,9 +785,9 @@ class Bench:
             if plan is not None:
                 self.plans.append(plan)
 
-    def one(self, plan, sname, files, point, relative=False, xdev=False):
+    def one(self, plan, sname, files, point, relative=False, xdev=False, out_name=None):
         return run_one(self.ctx, plan, self.table[plan["prog"]], self.indir, self.scratch, sname, files, point,
-                       relative=relative, xdev=xdev)
+                       relative=relative, xdev=xdev, out_name=out_name)
 
     def judge_all(self, cases):
         answers = self.ctx.driver.ask([r for c in cases for r in c["reqs"]])
@@ -766,6 +813,25 @@ def run_plans(ctx):
             by_name = dict(states)
             for point in points:
                 cases.append(bench.one(plan, "exists+bk1", dict(by_name["exists+bk1"]), point, relative=True))
+            # other output file NAMES (with look-alike neighbours in the directory), absolute / relative /
+            # sub-directory paths: a few crash points (first stage, open, half-written, flush) + success
+            kinds = [k for k, _ in plan["rows"]]
+            wanted = {0, len(kinds) - 1}
+            for kind in ("openDeferred", "openDirect", "flush"):
+                if kind in kinds:
+                    wanted.add(kinds.index(kind))
+            writes = [i for i, k in enumerate(kinds) if k.startswith("write")]
+            if writes:
+                wanted.add(writes[-1])
+            some_points = [pt for pt in points if pt[0] is None or pt[0] in wanted]
+            names = output_names(plan["out"])
+            if not ctx.thorough:
+                names = names[:4] + ctx.rng.sample(names[4:], 2)
+            for n_idx, name in enumerate(names):
+                mode = [False, True, "subdir"][n_idx % 3]
+                for sname, files in name_states(name, plan["out"])[:(3 if ctx.thorough else 2)]:
+                    for point in some_points:
+                        cases.append(bench.one(plan, sname, files, point, relative=mode, out_name=name))
             # temporary directory and output directory on different filesystems (move = copy + unlink)
             if any(k == "flush" for k, _ in plan["rows"]):
                 for sname in ("empty", "exists", "exists+bk1"):
@@ -816,7 +882,8 @@ def replay(ctx, data):
                 continue        # the reference run itself (re-executed by Bench)
             point = (item.get("crash"), item.get("crash_label"), item.get("crash_write"))
             cases.append(bench.one(plan, item.get("state", "replay"), item["files"], point,
-                                   relative=item.get("relative", False), xdev=item.get("xdev", False)))
+                                   relative=item.get("relative", False), xdev=item.get("xdev", False),
+                                   out_name=item.get("out")))
         bench.judge_all(cases)
         if stale:
             stale_cases(ctx, bench.plans, bench.table, bench.indir, bench.scratch)
